@@ -268,6 +268,21 @@ fn build_state(st: &Value) -> Result<Built, String> {
         }
         _ => return Err(format!("unknown hist {}", hist)),
     }
+    // the state actually reached must be the one the case matrix intends
+    {
+        let (hc, ccv, _) = observed_commitments(&b);
+        let want = |c: (u64, u64, usize)| json!({"p": true, "h": u64_to_limbs(c.0), "c": u64_to_limbs(c.1), "n": c.2});
+        let none = json!({"p": false, "h": [], "c": [], "n": 0});
+        let (wh, wc) = match hist {
+            "fresh" => (none.clone(), none.clone()),
+            "noC" => (want(c0), none.clone()),
+            "noH" => (none.clone(), want(c0)),
+            _ => (want(ch), want(ccn)),
+        };
+        if hc != wh || ccv != wc {
+            return Err(format!("state mismatch: holder {} vs {}, counterparty {} vs {}", hc, wh, ccv, wc));
+        }
+    }
     if st["pre"] == "closed" {
         let g = &st["good"];
         let names: Vec<String> =
